@@ -31,7 +31,20 @@ Record c18_obs := mkObs18 {
   o_cell   : c18_cellobs;     (* the cell right after NewCell / AddRowItems *)
   o_steps  : list c18_cellobs;(* the same cell after every "item's text changed; Update()" *)
   o_render : list N;          (* i_rmode <> 0: a one-cell table holding the item, rendered by texttable (ascii-simple) *)
-  o_render_last : list N      (* kind 5: the table that holds the cell, rendered after the last step *)
+  o_render_last : list N;     (* kind 5: the table that holds the cell, rendered after the last step *)
+  o_grid   : list (list N);   (* grid probe: the table rendered through ONE texttable wrapper (ascii-simple), once per stage *)
+  o_gridw  : list (list N * nat) (* length.StringCells of every line of every text of the grid *)
+}.
+
+(* grid probe: a whole table of texts (no item overrides its size).  A stage is
+   the table as it stands - NColumns, the header texts if any, the rows' texts,
+   short and empty rows included; stage k+1 is stage k after one change made in
+   place (a cell's item changed + Update(), a cell added to a row, the headers
+   replaced), rendered again through the same wrapper. *)
+Record g_stage := mkStage {
+  g_ncols  : nat;
+  g_header : option (list (list N));
+  g_rows   : list (list (list N))
 }.
 
 Record c18_in := mkIn18 {
@@ -48,7 +61,8 @@ Record c18_in := mkIn18 {
   i_decl : nat;
   i_seg  : list (list N * list (list Z));
   i_rw   : list (Z * nat);
-  i_cw   : list (list Z * nat)   (* runewidth.StringWidth of every cluster on its own *)
+  i_cw   : list (list Z * nat);  (* runewidth.StringWidth of every cluster on its own *)
+  i_grid : list g_stage
 }.
 
 Definition meas_eqb (a b : meas) : bool :=
@@ -128,6 +142,60 @@ Definition render_probe (i : c18_in) (lw : list nat) : list N :=
   | m => render_expected3 m (spec_lines (i_s i)) lw (i_wide i) (i_decl i)
   end.
 
+(* ---- "the layout pass and the emit pass of the text renderer always agree",
+   for a whole table, ascii-simple decoration.  [W] measures one line.
+   layout: column j is as wide as the widest cell in it, a cell is as wide as
+   its widest line; emit: every rule is + and, per column, width+2 dashes and
+   +; a row has as many content lines as its tallest cell (at least one); on
+   content line l column j shows line l of the row's cell j (nothing when the
+   row has no such cell or the cell no such line) as SP text padding SP, with
+   padding = column width - W text. *)
+Section Grid.
+  Variable W : list N -> nat.
+  Definition g_cellw (t : list N) : nat := list_max (map W (spec_lines t)).
+  Definition g_colws (ncols : nat) (rs : list (list (list N))) : list nat :=
+    map (fun j => list_max (map (fun r => match nth_error r j with Some t => g_cellw t | None => 0 end) rs))
+        (seq 0 ncols).
+  Definition g_rule (ws : list nat) : list N :=
+    match ws with
+    | [] => [43%N; 43%N; LF]     (* no column at all: just the two corners *)
+    | _ => [43%N] ++ flat_map (fun w => repeat 45%N (w + 2) ++ [43%N]) ws ++ [LF]
+    end.
+  Definition g_piece (r : list (list N)) (l : nat) (jw : nat * nat) : list N :=
+    let ln := match nth_error r (fst jw) with
+              | Some t => match nth_error (spec_lines t) l with Some x => x | None => [] end
+              | None => []
+              end in
+    [SP] ++ ln ++ repeat SP (snd jw - W ln) ++ [SP; 124%N].
+  Definition g_line (ws : list nat) (r : list (list N)) (l : nat) : list N :=
+    [124%N] ++ flat_map (g_piece r l) (combine (seq 0 (length ws)) ws) ++ [LF].
+  Definition g_row (ws : list nat) (r : list (list N)) : list N :=
+    flat_map (g_line ws r) (seq 0 (Nat.max 1 (list_max (map (fun t => length (spec_lines t)) r)))).
+  Definition g_expected (st : g_stage) : list N :=
+    let all := match g_header st with Some h => h :: g_rows st | None => g_rows st end in
+    let ws := g_colws (g_ncols st) all in
+    match g_header st with
+    | Some h => g_rule ws ++ g_row ws h ++ g_rule ws
+    | None => g_rule ws
+    end ++ flat_map (g_row ws) (g_rows st) ++ g_rule ws.
+End Grid.
+
+Definition g_texts (st : g_stage) : list (list N) :=
+  concat (match g_header st with Some h => h :: g_rows st | None => g_rows st end).
+Definition grid_lines (i : c18_in) : list (list N) :=
+  flat_map (fun st => flat_map spec_lines (g_texts st)) (i_grid i).
+Definition gridw_of (tab : list (list N * nat)) (k : list N) : nat :=
+  match find (fun p => bytes_eqb (fst p) k) tab with Some p => snd p | None => 0 end.
+(* the shape the column count stands for *)
+Definition g_shape_ok (st : g_stage) : bool :=
+  forallb (fun r => length r <=? g_ncols st) (match g_header st with Some h => h :: g_rows st | None => g_rows st end).
+
+Definition grid_ok (i : c18_in) (o : c18_obs) : bool :=
+  (length (o_grid o) =? length (i_grid i))
+  && forallb (fun l => existsb (fun p => bytes_eqb (fst p) l) (o_gridw o)) (grid_lines i)
+  && forallb (fun p => bytes_eqb (fst p) (g_expected (gridw_of (o_gridw o)) (snd p)) && g_shape_ok (snd p))
+             (combine (o_grid o) (i_grid i)).
+
 Definition last_text (i : c18_in) : list N :=
   if c18_mutable (i_kind i) then last (i_next i) (i_s i) else i_s i.
 
@@ -159,6 +227,8 @@ Definition C18_ok (i : c18_in) (ob : res c18_obs) : bool :=
                 bytes_eqb (o_render_last o) (render_expected 1 (spec_lines (last_text i)) (co_lw lo))
          | _ => true
          end
+      (* whole tables: layout and emit agree, at every stage through one wrapper *)
+      && grid_ok i o
   | Err => false
   | Panic => false
   end.
@@ -205,7 +275,7 @@ Definition c18_run (i : c18_in) : res c18_obs :=
   bind (new_cell_r W e it) (fun c =>
   bind (cellobs_of W c) (fun co =>
   bind (steps_model W (i_kind i) c (i_next i)) (fun st =>
-  Ok (mkObs18 ls (map ms ls) (ms s) (lb, lr, lc) co st [] [])))))))).
+  Ok (mkObs18 ls (map ms ls) (ms s) (lb, lr, lc) co st [] [] [] [])))))))).
 
 Definition cellobs_eqb (a b : c18_cellobs) : bool :=
   bytes_eqb (co_text a) (co_text b)
@@ -225,7 +295,7 @@ Definition obs18_eqb (a b : c18_obs) : bool :=
 
 (* every string that gets measured: s, the texts it is changed to, and all their lines *)
 Definition c18_strings (i : c18_in) : list (list N) :=
-  flat_map (fun t => t :: spec_lines t) (i_s i :: i_next i).
+  flat_map (fun t => t :: spec_lines t) (i_s i :: i_next i) ++ grid_lines i.
 
 (* the three assumptions of c18_cells_le_2runes hold for the real library's
    data on every one of them *)
@@ -236,15 +306,23 @@ Definition c18_oracle_ok (i : c18_in) : bool :=
   && forallb (fun k => forallb (fun cl => existsb (fun p => list_eqb Z.eqb (fst p) cl) (i_cw i)) (seg_of (i_seg i) k))
              (c18_strings i).
 
+(* the display width the model computes (clusters and rune widths from the
+   real libraries) is what length.StringCells said for every line of the grid *)
+Definition grid_corr (i : c18_in) (ob : res c18_obs) : bool :=
+  match ob with
+  | Ok o => forallb (fun p => string_cells (seg_of (i_seg i)) (rw_of (i_rw i)) (fst p) =? snd p) (o_gridw o)
+  | _ => true
+  end.
+
 Definition C18_case (c : c18_in * res c18_obs) : N :=
   let '(i, ob) := c in
-  code (res_eqb obs18_eqb (c18_run i) ob && c18_oracle_ok i) (C18_ok i ob).
+  code (res_eqb obs18_eqb (c18_run i) ob && c18_oracle_ok i && grid_corr i ob) (C18_ok i ob).
 
 (* for replays: what the model computes, whether the oracle assumptions held,
    and the rendering the probe expects *)
 Definition C18_model (c : c18_in * res c18_obs) :=
   (c18_run (fst c), c18_oracle_ok (fst c),
    match snd c with
-   | Ok o => render_probe (fst c) (map mC (o_lmeas o))
-   | _ => []
+   | Ok o => (render_probe (fst c) (map mC (o_lmeas o)), map (g_expected (gridw_of (o_gridw o))) (i_grid (fst c)))
+   | _ => ([], [])
    end).
